@@ -318,6 +318,8 @@ func main() {
 			t.doFunc(tg)
 		case "strmethod":
 			t.doStrMethod(tg)
+		case "methodset":
+			t.doMethodSet(tg)
 		default:
 			fail("unknown target kind %q", tg.Kind)
 		}
